@@ -2,6 +2,7 @@
 from __future__ import annotations
 
 import random
+import warnings
 
 from .. import attach, core
 from ..world import World, attach_world
@@ -50,9 +51,36 @@ def collection_case(ctx, index: int, rng: random.Random):
     b = physt.h1(np.asarray(gen.data_for_bins(rng, pairs, 8)), np.array(e), name="b")
     other_edges = np.linspace(e[0] - 2.2, e[-1] + 1.1, len(e) + 2)
     c = physt.h1([float(other_edges[1])], other_edges, name="c")
-    which = rng.choice(["ctor", "add", "ctor_binning_and_hists"])
+    which = rng.choice(["ctor", "add", "ctor_binning_and_hists", "normalize_all_empty_member", "normalize_all_empty_member"])
     raised = False
     col = HistogramCollection(a, b)
+    if which == "normalize_all_empty_member":
+        # a member without a single entry inside the bins (not the first one) cannot be normalised: a call that raises for it has
+        # normalised nobody
+        members = [a, b, physt.h1([e[-1] + 5.0], np.array(e), name="empty")]
+        rng.shuffle(members)
+        if members[0].name == "empty":
+            members = members[1:] + members[:1]
+        col = HistogramCollection(*members)
+        with attach.quiet():
+            before = [snap.snapshot(x) for x in col.histograms]
+        err = None
+        try:
+            with warnings.catch_warnings():
+                warnings.simplefilter("ignore")
+                with np.errstate(all="ignore"):
+                    col.normalize_all(inplace=True)
+        except Exception as ex:
+            err = ex
+        rec.mon("C18.world.atomicity")
+        with attach.quiet():
+            after = [snap.snapshot(x) for x in col.histograms]
+            changed = [x["name"] for x, y in zip(before, after) if snap.diff(x, y, ignore=("dtype",))]
+            if err is not None and changed:
+                rec.fail(monitor="C18.world.atomicity", op="collection.normalize_all", symptom=f"operation raised {type(err).__name__} but members of the collection were changed", diff=["members"],
+                         detail={"changed": changed, "order": [x["name"] for x in before], "error": str(err)[:120]})
+        rec.case(["collection", which, e, [x["name"] for x in before]], True, cls=f"collection/{which}/{'raised' if err is not None else 'accepted'}")
+        return
     with attach.quiet():
         before = [snap.snapshot(x) for x in col.histograms]
     try:
@@ -91,3 +119,8 @@ def run(ctx):
     attach_monitors(ctx)
     ctx.run_cases(ctx.scale(350, 3000), one_history)
     ctx.run_cases(ctx.scale(40, 200), collection_case, salt="collection")
+    # counting into compact integer types close to their top: a fill_n that raises has booked nothing (judged here), one that
+    # succeeds has the exact counts (judged by C13, where the same workload runs)
+    from . import C13
+
+    ctx.run_cases(ctx.scale(120, 600), C13.narrow_count_case, salt="narrow")
